@@ -234,6 +234,10 @@ def e2e_model():
             d = orm.Optional(datetime.date); t = orm.Optional(datetime.time); t0 = orm.Optional(datetime.time, 0)
             dt = orm.Optional(datetime.datetime); dt3 = orm.Optional(datetime.datetime, 3); td = orm.Optional(datetime.timedelta)
             u = orm.Optional(uuid.UUID); j = orm.Optional(orm.Json); ia = orm.Optional(orm.IntArray); sa = orm.Optional(orm.StrArray)
+            # the same kinds of value behind LAZY attributes: read back through the separate load of one attribute (Attribute.load / db_set), not with the row
+            lj = orm.Optional(orm.Json, lazy=True); lia = orm.Optional(orm.IntArray, lazy=True); lsa = orm.Optional(orm.StrArray, lazy=True); lfa = orm.Optional(orm.FloatArray, lazy=True)
+            lls = orm.Optional(orm.LongStr, lazy=True); lby = orm.Optional(bytes, lazy=True); ldec = orm.Optional(decimal.Decimal, 12, 2, lazy=True); ldt = orm.Optional(datetime.datetime, lazy=True)
+            lu = orm.Optional(uuid.UUID, lazy=True); ltd = orm.Optional(datetime.timedelta, lazy=True); lb = orm.Optional(bool, lazy=True); lt = orm.Optional(datetime.time, lazy=True)
         db.generate_mapping(create_tables=True)
         _M = types.SimpleNamespace(db=db, R=R, orm=orm)
         D = decimal.Decimal
@@ -245,7 +249,9 @@ def e2e_model():
             t=[datetime.time(0, 0, 0), datetime.time(23, 59, 59, 999999), datetime.time(1, 2, 3, 4)], t0=[datetime.time(23, 59, 59, 999999)],
             dt=[datetime.datetime(1, 1, 1), datetime.datetime(2024, 2, 29, 23, 59, 59, 999999)], dt3=[datetime.datetime(2024, 2, 29, 23, 59, 59, 999999)],
             td=[datetime.timedelta(0), datetime.timedelta(5, 86399, 999999), datetime.timedelta(-1, 1, 1)],
-            u=[uuid.UUID(int=0), uuid.UUID(int=2 ** 128 - 1)], j=[{'a': [1, {'b': None}], 'c': 'x'}, [1, 2.5, 'z'], {}], ia=[[1, 2, 3], []], sa=[['a', "b'c"]])
+            u=[uuid.UUID(int=0), uuid.UUID(int=2 ** 128 - 1)], j=[{'a': [1, {'b': None}], 'c': 'x'}, [1, 2.5, 'z'], {}], ia=[[1, 2, 3], []], sa=[['a', "b'c"]],
+            lj=[{'a': [1, {'b': None}], 'c': 'x'}, [1, 2.5, 'z']], lia=[[1, 2, 3], []], lsa=[['a', "b'c"]], lfa=[[1.5, -0.25]], lls=['long ' * 50], lby=[b'\x00\xff'], ldec=[D('1.23'), D('1.2')],
+            ldt=[datetime.datetime(2024, 2, 29, 23, 59, 59, 999999)], lu=[uuid.UUID(int=2 ** 128 - 1)], ltd=[datetime.timedelta(5, 86399, 999999)], lb=[True, False], lt=[datetime.time(1, 2, 3, 4)])
     return _M
 
 
